@@ -27,6 +27,22 @@ template <unsigned CAP> struct VxMMFixed : MemoryManager {
   MemoryManager* getExceptionMemoryManager() { return this; }
 };
 
+// Size-class manager: a request is served by a block of the next size class (16,32,...,4096 bytes), so every heap object has a
+// concrete size even when the requested size is symbolic after path merging.  Accesses are bounds-checked against the class size.
+struct VxMMClass : MemoryManager {
+  unsigned long live;
+  VxMMClass() : live(0) {}
+  void* allocate(XMLSize_t n) {
+    void* p;
+    if (n <= 16) p = malloc(16); else if (n <= 32) p = malloc(32); else if (n <= 64) p = malloc(64); else if (n <= 128) p = malloc(128);
+    else if (n <= 256) p = malloc(256); else if (n <= 512) p = malloc(512); else if (n <= 1024) p = malloc(1024);
+    else { VX_ASSERT(n <= 4096, "allocation request within the largest modelled size class"); VX_ASSUME(n <= 4096); p = malloc(4096); }
+    VX_ASSUME(p != 0); live++; return p;
+  }
+  void deallocate(void* p) { if (p) live--; free(p); }
+  MemoryManager* getExceptionMemoryManager() { return this; }
+};
+
 #ifdef VX_STUB_XMLEXCEPTION
 static int vx_last_exc_code = -1; static int vx_exc_count = 0;
 XMLException::XMLException(const char* const, const XMLFileLoc, MemoryManager* const m)
